@@ -1,7 +1,8 @@
 """Histories of generation requests: generation (seeded) and execution (literal action lists).
 
 Actions (JSON lists):
-  ["ctx", cid, target]                       new Context with the parameters used for `target`
+  ["ctx", cid, target[, params, how]]        new Context as results/update.py makes it for `target`; optional context
+                                             parameters given to the constructor ("ctor") or assigned afterwards ("post")
   ["trace", rid, cid, target, func, sig]     g = ctx.trace(func, *sig)
   ["expand", rid]                            g = g.rewrite(target)
   ["simplify", rid]                          g = g.rewrite(fa.rewrite)
@@ -84,7 +85,7 @@ def gen_history(seed, universe, cfg):
             continue
         r = rq.choice(by_target[t])
         debug = rq.choice(cfg.get("debug_levels", {}).get(t, [0]))
-        if rq.random() < p_shared:
+        if rq.random() < p_shared and not r.get("params"):
             # background / shared-context request (its context is shared with other functions and targets)
             pool = shared_ctx.setdefault("xla" if t == "xla_client" else "plain", [])
             acts = []
@@ -118,7 +119,12 @@ def gen_history(seed, universe, cfg):
             rid = new_rid()
             tag = "cmp" if t in cmp_targets else "bg"
             raw = r["func"].startswith("stress_") and rq.random() < 0.3  # one pipeline per compared context
-            acts = [["ctx", cid, t]] + steps(rid, cid, r, debug, tag, False, raw)
+            if r.get("params"):
+                # parameters given to the constructor, or assigned to ctx.parameters afterwards
+                acts = [["ctx", cid, t, r["params"], rq.choice(["ctor", "post"])]]
+            else:
+                acts = [["ctx", cid, t]]
+            acts += steps(rid, cid, r, debug, tag, False, raw)
             while rq.random() < p_repeat and len(acts) < 14:
                 if rq.random() < 0.5:
                     acts.append(["print", rid, debug, tag] + (["raw"] if raw else []))
@@ -245,6 +251,7 @@ class Executor:
         self.outputs = []
         self.last_aborted = False
         self.tainted = set()
+        self.ctx_params = {}
         self.pos = 0
 
     def bump(self, d, k, n=1):
@@ -301,8 +308,19 @@ class Executor:
         fa = self.fa
         self.log.ev("act", op, a[1] if len(a) > 1 and isinstance(a[1], (str, int)) else None)
         if op == "ctx":
-            self.ctxs[a[1]] = fa.Context(paths=[fa.algorithms], **context_params(a[2]))
+            params = a[3] if len(a) > 3 else None
+            how = a[4] if len(a) > 4 else "ctor"
+            if params and how == "ctor":
+                ctx = fa.Context(paths=[fa.algorithms], parameters=dict(params), **context_params(a[2]))
+            else:
+                ctx = fa.Context(paths=[fa.algorithms], **context_params(a[2]))
+                if params:
+                    for k in params:
+                        ctx.parameters[k] = params[k]
+                    self.bump(self.probes, "context_parameters_assigned_after_construction")
+            self.ctxs[a[1]] = ctx
             self.ctx_hist[a[1]] = []
+            self.ctx_params[a[1]] = dict(params) if params else None
             return
         if op == "gc":
             getattr(gc, a[1])()
@@ -318,6 +336,7 @@ class Executor:
             cid = a[1]
             self.ctxs.pop(cid, None)
             self.ctx_hist.pop(cid, None)
+            self.ctx_params.pop(cid, None)
             for rid in [r for r, q in self.reqs.items() if q["cid"] == cid]:
                 del self.reqs[rid]
             gc.collect()
@@ -334,6 +353,7 @@ class Executor:
                 ctx = self.ctxs[cid] = fa.Context(paths=[fa.algorithms], **context_params(target))
                 self.ctx_hist[cid] = []
             req = self.reqs[rid] = dict(rid=rid, cid=cid, target=target, func=func, sig=list(sig), g=None, stage="new", ctx=ctx,
+                                        params=self.ctx_params.get(cid),
                                         prior=list(self.ctx_hist[cid]), interleaved=False)
             fn = lambda: ctx.trace(get_func(fa, func), *sig)  # noqa: E731
             self.guarded(req, "traced", fn, fault)
